@@ -17,6 +17,15 @@ claim('C12', 'proof',
  "trusted: Coq kernel, extraction, harness; the model of the inline assembly is its loop structure (lane arithmetic is observed through the optim build); D7 (N not a multiple of 8) noted, outside the quantifier",
  "DESIGN.md section 4, C12")
 
+claim('C14', 'proof',
+ "Coq theorems for every n>=1, every p (incl. INT32_MIN), every key and coefficient value: phase(c1 +- p*c2) = phase(c1) +- p*phase(c2) mod 2^32 and clear/copy/negate/trivial; the 8/4/2/1 block structure of the assembly subtraction covers exactly n cells and equals the plain loop for every n; extraction of coefficient j commutes with the TLWE phase for every N,k,j; tied to the code by exact comparison with both builds for n in 1..40 and {500,...,2048} with guard zones around every array, and TLWE operations at N in {2..1024}, k in {1,2,3}",
+ "trusted: Coq kernel, extraction, harness; tLwePhase (FFT) compared within 16 units at N=1024; variance annotation (double) not compared bit-exactly; defect D2 (n<8 overrun) repaired in /repo (fix: d3ee30a)",
+ "DESIGN.md section 4, C14")
+claim('C08', 'proof',
+ "Coq theorems for every mask value, every pair of dimensions and every (t,basebit) with t*basebit<=31: digits sum to the coefficient rounded to t*basebit bits (carries and wrap-around included), rounding error in [-2^(31-tb),2^(31-tb)), and phase_out - phase_in = sum_i s_i*round_err(a_i) - (noise of the rows used) exactly mod 2^32; flat index in range; tied to the code by exact comparison of (a,b) on harness-written keys over a grid of layouts/dimensions on both builds, and by the same identity evaluated exactly with the secret keys on real generated keys (incl. 1024->630, (8,2)); thorough sweeps all 2^32 mask values for four layouts",
+ "trusted: Coq kernel, extraction (fast driver, cross-checked against pure), harness; the size of the row noise is C07's subject",
+ "DESIGN.md section 4, C08")
+
 NA_REASON = "check not built yet in this revision (work in progress; DESIGN.md section 8 gives the order)"
 checks = []
 for p in props:
